@@ -362,8 +362,10 @@ func init() {
 			for _, n := range []int{1, 99, 100, 101, 128} {
 				out = append(out, inst("internal/rsyncwire", "HMuxInfoRun", "n", n))
 			}
-			for _, l := range []int{0, 1, 3} {
-				out = append(out, inst("internal/rsyncwire", "HMuxWriter", "len", l))
+			for _, l := range []int{0, 1, 3, 255, 256, 65535, 65536, 262144} {
+				i := inst("internal/rsyncwire", "HMuxWriter", "len", l)
+				i.MaxAlloc = 1 << 20
+				out = append(out, i)
 			}
 			// the real client stack (ClientRun) on a frame larger than 32 KiB / at the frame limit
 			out = append(out, inst("internal/maincmd", "HClientPull", "n", 40000))
@@ -518,6 +520,7 @@ func init() {
 				inst("internal/receiver", "HFlistDecode", "k", 2, "opts", 4, "same", 16),
 				inst("internal/receiver", "HFlistDecode", "k", 2, "opts", 0, "same", 0),
 				inst("internal/sender", "HFlistEncode", "n", 1, "split", 1),
+				inst("internal/sender", "HSenderNumbering"),
 			}
 			if tier == "thorough" {
 				out = append(out,
@@ -531,7 +534,7 @@ func init() {
 			return out
 		},
 		Redirects: sym.VfsRedirects(),
-		MustReach: []string{"short", "long", "done", "samename", "rdev", "target"},
+		MustReach: []string{"short", "long", "done", "samename", "rdev", "target", "numbered"},
 		Bounds:    "integers: all 64-bit values. decoder: lists of k entries built by an independent protocol-27 reference encoder; all field values symbolic (64-bit lengths incl. the 12-byte form, int32 mtime/uid/gid/rdev, all 7 types, all permission bits, names of 1..k bytes incl. bytes >= 0x80 with symbolic shared-prefix compression), option sets and 'same as previous' flag masks per instance (k=1: every option subset)",
 		Outside:   "lists longer than k; names containing '/' or '.' (name sanitising is C05's subject); duplicate names; not every combination of option subset x same-flag mask for k >= 2 (the listed masks)",
 	})
